@@ -184,6 +184,14 @@ class Runner:
         obs, reg = base.run_history(prep, case['ops'], lambda sig, what, step: c06_fails.append(sig))
         for s in c06_fails:
             ctx.count('c06-oracle-' + s)
+        # ---- every built-in metric object covers its claims (theorem builtin_claims_cover, checked on the real classes)
+        for c in case['collectors']:
+            if c['kind'] == 'builtin':
+                emitted = set(s.name for m in prep.fams[c['id']] for s in m.samples)
+                if not emitted <= set(prep.claims(c['id'])):
+                    self.fail('C07:builtin-claims-do-not-cover', '%s(%r) emits %s, claims %s' % (
+                        c['cls'], c['name'], sorted(emitted), sorted(set(prep.claims(c['id'])))), dict(case, namesets=[]))
+                ctx.count('builtin-cover-checked-' + c['cls'])
         # ---- collect is complete and exact, after every call
         regs, ti = [], case['ti']
         exact_ok = True
